@@ -2,7 +2,7 @@
 (***************************************************************************)
 (* The conformance relation between one observed step of the               *)
 (* implementation                                                          *)
-(*     ev == [pre, msg, post, status, warns, ser_eq]                       *)
+(*     ev == [pre, msg, post, status, warns, ser_eq, completed_acc]        *)
 (* and the specification, split into one clause per listed property        *)
 (* (DESIGN.md section 4.4/4.5).  Every clause compares through the "lens"  *)
 (* the property states and nothing more, so a change that breaks one       *)
@@ -190,6 +190,7 @@ ReportedOk(ev, R) ==
 (* C07 (single step part): completion                                     *)
 (* ---------------------------------------------------------------------- *)
 CompletionOk(ev) ==
+  /\ ev.completed_acc = Completed(ev.post)        \* what ro.completed reports is what the document records
   /\ Completed(ev.pre) => (ev.status = "completed_error" /\ ev.post = ev.pre /\ ev.ser_eq)
   /\ (~Completed(ev.pre) /\ ev.msg.cls = "RunningOrderEnd") =>
         /\ ev.status = "ok"
@@ -289,6 +290,7 @@ Sig(ev) ==
 (* an event built from a specification result: what a conforming          *)
 (* implementation would have been observed to do                          *)
 SpecEvent(ro, m, r) ==
-  [pre |-> ro, msg |-> m, post |-> r.post, status |-> r.status, warns |-> r.warns, ser_eq |-> TRUE]
+  [pre |-> ro, msg |-> m, post |-> r.post, status |-> r.status, warns |-> r.warns, ser_eq |-> TRUE,
+   completed_acc |-> Completed(r.post)]
 
 =============================================================================
